@@ -336,6 +336,7 @@ func runDoc(d *Doc) (res Result) {
 	for _, name := range d.Requested {
 		vars := ast.NewVars()
 		vars.Set("CLI_X", ast.Var{Value: "1"})
+		vars.Set("OUT", ast.Var{Value: "#1"}) // a command-line variable that is a shell comment
 		err, p = guard(func() error { _, err := e.CompiledTask(&task.Call{Task: name, Vars: vars}); return err })
 		res.Probes++
 		if p != nil {
